@@ -91,7 +91,7 @@ class MultiSetEdit(SequenceEdit):
         yield from self._matched_kvp_edits
         remove_matched: HashableCounter[TreeNode] = HashableCounter()
         insert_matched: HashableCounter[TreeNode] = HashableCounter()
-        for (rem, (ins, edit)) in self._matcher.matching.items():
+        for rem, ins, edit in self._matcher.matched_edges():
             yield edit
             remove_matched[rem] += 1
             insert_matched[ins] += 1
